@@ -1,4 +1,5 @@
 import TruthModel.Props.C18
+import TruthModel.Props.C18Msg
 open TruthModel.C18
 #print axioms dummy_same_size
 #print axioms offsets_stable
@@ -16,3 +17,11 @@ open TruthModel.C18
 #print axioms real_ok_of_dummy_ok
 #print axioms second_pass_ok_of_wide
 #print axioms no_panic_after_gather
+#print axioms msg_export_indices
+#print axioms mem_indicesOf
+#print axioms indices_sorted
+#print axioms default_entry_listed
+#print axioms entry_beyond_len_not_listed
+#print axioms exports_complete
+#print axioms exports_sound
+#print axioms implicitLen_covers
